@@ -121,6 +121,8 @@ def make_symbolic(I, kind, name):
         return [make_symbolic(I, kind[1], "%s[%d]" % (name, i)) for i in range(lens[k])]
     if tag == 'tuple':
         return tuple(make_symbolic(I, k, "%s[%d]" % (name, i)) for i, k in enumerate(kind[1:]))
+    if tag == 'opaque_facts':
+        return Opaque('object', kind[1], facts=set(kind[2]))
     if tag == 'model':
         from . import envmodel
         return envmodel.make(kind[1], I, name)
@@ -516,12 +518,15 @@ def apply_contract(I, c, ex, args, kwargs):
                 P.assume(I.truth(I.eval_spec(ens, l2, G, old, ex.cls)))
             for ev in getattr(c, 'raise_emits_', {}).get(rname, []):
                 P.event(*ev)
+            _havoc_on_raise(I, c, loc)
             P.event('raise', cls.__name__)
             raise pyvc.Raised(e)
     if not c.no_other_raises:
         if P.choose(2, "may-raise-any") == 1:
             e = ExcVal(Exception, (Opaque('str', 'message'),))
             e.fields['__unknown_subclass__'] = True
+            _havoc_on_raise(I, c, loc)
+            P.event('raise', 'Exception')
             raise pyvc.Raised(e)
     # havoc the frame
     bound = set()
@@ -586,6 +591,19 @@ def apply_contract(I, c, ex, args, kwargs):
         # the contract says nothing about the returned value: callers must not assume None
         return Opaque('object', 'unspecified-result-of-' + ex.name)
     return loc['result']
+
+
+def _havoc_on_raise(I, c, loc):
+    """State a callee may leave behind when it raises (partial effects)."""
+    for p, kind in getattr(c, 'havoc_on_raise', {}).items():
+        parts = p.split('.')
+        if parts[0] not in loc:
+            continue
+        o = loc[parts[0]]
+        for q in parts[1:-1]:
+            o = I.resolve_opt(I.getattr(o, q))
+        if isinstance(o, Obj):
+            o.fields[parts[-1]] = make_symbolic(I, kind, "partial_" + parts[-1])
 
 
 def _exc_fields(I, e, cls):
